@@ -52,6 +52,23 @@ def _ratios(case):
     return tuple(r) if how == "tuple" else np.array(r) if how == "array" else r
 
 
+def _acceptable_sizes(n, r):
+    """round(n x r) for the double r the library is given, under every reading of "round": the product in floating point
+    rounded half-to-even (Python's round, numpy) or half-up, and the exact product n * r rounded to nearest (both neighbours
+    when that is an exact tie).  For most (n, r) these agree on one number, and then that number is demanded."""
+    import math
+    fp = n * r
+    ok = {int(round(fp)), int(math.floor(fp + 0.5))}
+    ex = n * Fraction(r)
+    lo = ex.numerator // ex.denominator
+    frac = ex - lo
+    if frac == Fraction(1, 2):
+        ok |= {lo, lo + 1}
+    else:
+        ok.add(lo + 1 if frac > Fraction(1, 2) else lo)
+    return ok
+
+
 def check(case):
     import sempler.utils as utils
     sizes = case["sizes"]
@@ -100,9 +117,12 @@ def check(case):
             want = n * exact[i]
             s = len(parts[i])
             if start + float(want) + 0.5 <= n:           # the request still fits entirely
-                if abs(s - float(want)) > 0.5 + 1e-9:
-                    raise Violation("fold_size", "%s: environment %d fold %d has %d rows, requested round(%d*%s)=%s"
-                                    % (ctx, e, i, s, n, exact[i], float(want)))
+                ok = _acceptable_sizes(n, rl[i])
+                if s not in ok:
+                    raise Violation("fold_size", "%s: environment %d fold %d has %d rows, round(%d * %r) is %s"
+                                    % (ctx, e, i, s, n, rl[i], " or ".join(str(k) for k in sorted(ok))))
+                if len(ok) == 1 and abs(float(want) % 1 - 0.5) < 1e-9:
+                    lab.append("tie_settled_by_the_double")
             start += s
         if n and sum(int(n * r + Fraction(1, 2)) for r in exact) != n:
             if "rounding_mismatch" not in lab:
@@ -192,6 +212,8 @@ def plan(tier, seed):
     jobs = []
     for k in range(16):
         jobs.append({"sub": "grid", "seed": seed, "shard": k, "nshards": 16, "cost": 5})
+    for k in range(4):
+        jobs.append({"sub": "ties", "seed": seed, "shard": k, "nshards": 4, "tier": tier, "cost": 6})
     n = scaled(16000 if tier == "quick" else 240000)
     shards = 16 if tier == "quick" else 64
     for k in range(shards):
@@ -217,6 +239,30 @@ def run(job):
                     except Violation as v:
                         acc.record(case, [], False)
                         acc.violation(case, v)
+        acc.exhaustive = True
+    elif job["sub"] == "ties":
+        # n x ratio exactly half-way for a two-decimal ratio: (n, a) with n * a / 100 = k + 1/2.  Whether that is a real tie
+        # depends on the double that stands for a/100 - e.g. 10 x 0.55 (the double is slightly above 11/20) is 6 under
+        # every reading, and a library that moves the ratios by an ulp (renormalising them) turns it into 5.
+        idx = 0
+        for n in ([10, 30, 50, 90] if job.get("tier") != "thorough" else [10, 30, 50, 70, 90, 110, 150, 250]):
+            for a in range(1, 99):
+                if (n * a) % 100 != 50:
+                    continue
+                for b in range(1, 100 - a):
+                    c = 100 - a - b
+                    for perm in ((a, b, c), (b, a, c)):
+                        idx += 1
+                        if idx % job["nshards"] != job["shard"] or (job.get("tier") != "thorough" and idx % 3):
+                            continue
+                        case = {"sub": "ties", "sizes": [n], "ratios": [fstr(Fraction(k, 100)) for k in perm],
+                                "seed": [0, job["seed"], 7][idx % 3], "width": 1}
+                        try:
+                            lab = check(case)
+                            acc.record(case, lab, "tie_settled_by_the_double" in lab, by_construction=True, sample=(idx % 701 == 0))
+                        except Violation as v:
+                            acc.record(case, [], False)
+                            acc.violation(case, v)
         acc.exhaustive = True
     else:
         run_property(acc, split_case(), check, _nontrivial, job["n"], job_seed(job))
